@@ -1,8 +1,7 @@
 (* wf_indexed (the hypothesis of C10's head-matrix theorems, coq/Geom/AssemblyProofs.v) discharged from C11's model
    of Geometry::finalize: the indexed geometry C10 works on is read off the finalized model, and its well-formedness
    follows from generate_indices_bijection + the characterisation of excluded vertices.  What remains as hypotheses
-   is about the mesh files (distinct vertex references, non-degenerate triangles over them) and one fact that does
-   NOT hold for every description: an isolated mesh is not flagged outermost (see design/C11.md). *)
+   is about the mesh files only (distinct vertex references, non-degenerate triangles over them). *)
 From OM Require Import Base.Lists Base.Ops Geom.MeshTopo Geom.GeomModel Geom.GeomProofs Geom.FinalizeProofs Geom.IndexBridge.
 From OM Require Geom.Assembly Geom.AssemblyProofs.
 From Coq Require Import Reals.
@@ -65,10 +64,14 @@ Variable g : geom.
 Variables (hasc : bool) (zero : list bool) (snz : nat -> nat -> bool) (fi : fin).
 Hypothesis Hfin : finalize g hasc zero snz false = (StOk, Some fi).
 Hypothesis Hwf : meshes_well_formed g.
-(* not a consequence of finalize: set_outermost may flag an isolated mesh again (outer shell between two non-conductive
-   domains); deflation then meets vertices without unknown *)
-Hypothesis Hout : forall k, (k < length (g_meshes g))%nat ->
+(* an isolated mesh is never flagged outermost (FinalizeProofs.finalize_quiet; true since the repair of
+   Interface::set_to_outermost, 0970b63) *)
+Lemma Hout : forall k, (k < length (g_meshes g))%nat ->
   f_out (nth k (mk_flags (fi_marks fi)) flags0) = true -> f_iso (nth k (mk_flags (fi_marks fi)) flags0) = false.
+Proof.
+  intros k _ Ho. destruct (f_iso (nth k (mk_flags (fi_marks fi)) flags0)) eqn:E; auto.
+  rewrite (finalize_quiet _ _ _ _ _ _ Hfin k E) in Ho. discriminate.
+Qed.
 Variables sig sinv ind : nat -> nat -> R.
 
 Notation fl := (mk_flags (fi_marks fi)).
